@@ -135,7 +135,7 @@ REGISTRY = {
         undecided_clauses=["compression settings do not enter the logic under contract (they are passed through to numpy_pickle.dump, C03)"],
     ),
     "C06": dict(
-        packs=["mem", "c07", "c08", "fmt"], level="proof",
+        packs=["mem", "c07", "c08", "fmt", "loc", "gfn"], level="proof",
         replay=dict(script="replay/mem.py", args=["C06"], timeout=600),
         bounded=[dict(name="audit-scenarios", script="replay/found.py", args=["C06", "{tier}"], timeout=1500, bound="scenarios contributed by audit sub-agents (replay/found/MANIFEST.json): repaired defects must stay repaired, recorded findings are probed"), dict(name="memory-scenarios", script="replay/mem.py", args=["C06"],
                       bound="call-form equivalence / redefinition / crash-state scenarios on a real cache directory (every truncation length of func_code.py, "
@@ -146,7 +146,7 @@ REGISTRY = {
         undecided_clauses=[],
     ),
     "C12": dict(
-        packs=["mem", "xfl"], level="proof",
+        packs=["mem", "xfl", "loc"], level="proof",
         replay=dict(script="replay/mem.py", args=["C12"], timeout=600),
         bounded=[dict(name="audit-scenarios", script="replay/found.py", args=["C12", "{tier}"], timeout=1500, bound="scenarios contributed by audit sub-agents (replay/found/MANIFEST.json): repaired defects must stay repaired, recorded findings are probed"), dict(name="memory-scenarios", script="replay/mem.py", args=["C12"],
                       bound="call-form equivalence / redefinition / crash-state scenarios on a real cache directory (every truncation length of func_code.py, "
@@ -194,7 +194,7 @@ REGISTRY = {
         undecided_clauses=["'a damaged cache entry makes Memory recompute' is the except-Exception path of MemorizedFunc._cached_call, decided in the store pack (C05)"],
     ),
     "C17": dict(
-        packs=["c17"],
+        packs=["c17", "exe"],
         level="proof",
         replay=dict(script="replay/c17.py", args=[], timeout=600),
         bounded=[dict(name="audit-scenarios", script="replay/found.py", args=["C17", "{tier}"], timeout=1500, bound="scenarios contributed by audit sub-agents (replay/found/MANIFEST.json): repaired defects must stay repaired, recorded findings are probed"), dict(name="config-scoping-small-scope", script="replay/c17.py", args=[],
